@@ -1250,8 +1250,12 @@ def repr_case(chk, rng, name, kind, ov, n0):
     # KernelRIM's base kernel); linear and precomputed kernels of these exactly representable values stay exact
     exact32 = kauri and sp["params"].get("kernel", "linear") in ("linear", "precomputed")
     tol = 1e-5 if (kind == "float32" and not exact32) else 1e-9
-    tp = 1e-5 if (kind == "float32" and name == "KernelRIM") else 1e-12
-    margin_rule = kind == "float32" and name == "KernelRIM"
+    # ... and a float32 precomputed affinity is used as given by the GEMINI arithmetic (affinity / N**2 ... in float32)
+    lib32 = kind == "float32" and (name == "KernelRIM" or (ak is not None and not kauri))
+    tp = 1e-5 if lib32 else 1e-12
+    margin_rule = lib32
+    if lib32:
+        chk.dist["repr:float32-resolution-compare"] += 1
     try:
         with quiet():
             var.fit(Xv, yv)
